@@ -35,7 +35,9 @@ def gen_history(rng, tree):
         if k < 0.35:
             t = mgen.SourceGen(rng, valid_only=rng.random() < 0.85, unknown=False, disabled=False).text(tree)
             if t:
-                ops.append(["update", t])
+                # the same edit through one of the entry points: update(string), merge_phil(string / parsed object),
+                # merge_param_file(file)
+                ops.append(["update", t, rng.choice(["update", "update", "string", "object", "file"])])
         elif k < 0.5:
             ops.append(["push"])
             depth += 1
@@ -45,6 +47,8 @@ def gen_history(rng, tree):
             ops.append(["set", rng.randrange(depth)])
         elif k < 0.74:
             ops.append(["from_python"])
+        elif k < 0.77:
+            ops.append(["copy"])          # index.copy() (pickle round trip): the history continues on the copy
         elif k < 0.82:
             ops.append(["from_python_obj", rng.randrange(10 ** 6)])   # a separately extracted, edited object
         else:
@@ -66,6 +70,20 @@ def live_paths(idx):
                 walk(c, inside_multiple or bool(c.multiple))
     walk(idx.working_phil, False)
     return out
+
+
+_EDITDIR = None
+
+
+def _editdir():
+    global _EDITDIR
+    if _EDITDIR is None:
+        import atexit
+        import shutil
+        import tempfile
+        _EDITDIR = tempfile.mkdtemp(prefix="verif-c20-", dir="/var/tmp")
+        atexit.register(shutil.rmtree, _EDITDIR, True)
+    return _EDITDIR
 
 
 def run_history(m, ops):
@@ -92,12 +110,45 @@ def run_history(m, ops):
         observe(None)
         for step, op in enumerate(ops):
             got = None
+            if op[0] == "copy":
+                # no operation of the abstract machine: text, cache flags, stack and index must survive
+                try:
+                    snap = (idx.working_phil.as_str(), idx.params is not None, bool(idx._phil_has_changed),
+                            [w.as_str() for w in idx._states])
+                    idx = idx.copy()
+                    after = (idx.working_phil.as_str(), idx.params is not None, bool(idx._phil_has_changed),
+                             [w.as_str() for w in idx._states])
+                    if snap != after:
+                        fails.append((step, "index.copy() changed the state: %r -> %r" % (snap[1:3], after[1:3])))
+                except BaseException as e:
+                    fails.append((step, "index.copy() raised %s: %s" % (type(e).__name__, str(e)[:100])))
+                    break
+                continue
             wire.append([op[0], enc(op[1])] if op[0] == "update" else list(op))
             try:
                 if op[0] == "update":
                     before = idx.working_phil.as_str()
+                    via = op[2] if len(op) > 2 else "update"
                     try:
-                        idx.update(op[1])
+                        if via == "update":
+                            idx.update(op[1])
+                        elif via == "file":
+                            import os
+                            fn = os.path.join(_editdir(), "edit_%d.params" % step)
+                            with open(fn, "w") as fh:
+                                fh.write(op[1])
+                            idx.merge_param_file(fn)
+                        else:
+                            # merge_phil itself does not validate first: callers do (as update / merge_param_file do)
+                            try:
+                                pre = freephil.parse(input_string=op[1])
+                                m.fetch(source=pre)
+                            except (RuntimeError, freephil.Sorry):
+                                raise freephil.Sorry("refused by the caller's validation")
+                            if via == "string":
+                                idx.merge_phil(phil_string=op[1])
+                            else:
+                                idx.merge_phil(phil_object=pre)
                     except freephil.Sorry:
                         pass
                     else:
